@@ -14,13 +14,16 @@ RULE = ("per run: format (pickle/json), user-space buffer size, prior on-disk co
         "fsync, close, rename#1, rename#2, remove) x kind (crash before/after, EIO, ENOSPC with short write, EACCES) x crash "
         "resolution (process death; power loss with un-synced data kept/dropped/prefix/zero-filled and a drawn prefix of the "
         "directory journal). Oracle: a fresh gateway's start-up load yields exactly the old or the new state; after a failed op one "
-        "more save succeeds and reloads to the current state. non-trivial = the fault landed after the first write to the temp file "
+        "more save succeeds and reloads to the current state. 12% of the runs keep the configured file as a symbolic link into another "
+        "directory. 15% of the runs are OVERLAP runs instead: two saves of one process (timer thread and stopping thread, a state change in "
+        "between) under a pre-emptive schedule inside the save code, process death at a drawn operation of either of them or none; the "
+        "load must give one of the complete states old / mid / new. non-trivial = the fault landed after the first write to the temp file "
         "and not after the last directory operation; distinct = distinct (format, prior, op kind#occurrence, fault kind, resolution) tuples")
 TIERS = {
     "quick": {"runs": 6000, "max_wall": 240, "minimise_s": 20, "chunk": 100},
     "thorough": {"runs": 250000, "max_wall": 3000, "minimise_s": 60, "chunk": 500},
 }
-FAULT_KINDS = ["crash_before", "crash_after", "EIO", "ENOSPC (short write)", "EACCES", "powerloss: unsynced data kept/dropped/prefix/zerofill",
+FAULT_KINDS = ["crash_before", "crash_after", "EIO", "ENOSPC (short write)", "EACCES", "two overlapping saves (schedule)", "configured file is a symlink", "powerloss: unsynced data kept/dropped/prefix/zerofill",
                "powerloss: journal prefix"]
 REAL = ["mysensors.persistence (save_sensors, safe_load_sensors, both serialisers)", "mysensors.task.start_persistence", "pickle", "json",
         "mysensors handlers building the states"]
@@ -59,7 +62,7 @@ def gen(rng, tier, index):
         "cfg": {"version": version, "fmt": fmt, "prior": rng.choice(PRIORS), "bufsize": rng.choice([16, 64, 512, 8192, 8192]),
                 "kind": rng.choice(KINDS), "resolution": rng.choice(RESOLUTIONS), "journal_frac": rng.random(),
                 "cut": rng.random(), "point": rng.random(), "point2": rng.random(), "long_tmp": rng.random() < 0.5,
-                "relpath": rng.choice([None, None, None, "mysensors", "some_folder/mysensors"])},
+                "relpath": rng.choice([None, None, None, "mysensors", "some_folder/mysensors"]), "symlink": rng.random() < 0.12},
         "old": diskutil.state_lines(rng, version, rng.randint(2, 25)),
         "new": diskutil.state_lines(rng, version, rng.randint(1, 12)) + [f"{rng.choice([1, 2, 3])};255;0;0;17;2.{rng.randrange(3)}"],
         "stale": diskutil.state_lines(rng, version, rng.randint(1, 6)),
@@ -222,6 +225,19 @@ def run(case):
                 fs.sync_all()
             else:
                 gw_a.tasks.persistence.need_save = False
+            if cfg.get("symlink"):
+                # the configured file is a symbolic link into another directory (a common container set-up):
+                # its content lives in /data, tmp and backup names are derived from the configured path
+                target = "/data/" + path.rsplit("/", 1)[1]
+                if path in fs.files:
+                    fs.put(target, fs.get(path))
+                    fs.files.pop(path)
+                    fs.durable_files.pop(path, None)
+                else:
+                    fs.mkdir("/data")
+                fs.symlink(target, path)
+                fs.sync_all()
+                probes["symlinked_file"] = 1
             # ---- new state --------------------------------------------------------------
             dw.feed(gw_a, case["new"])
             s_new = diskutil.proj(gw_a)
@@ -255,7 +271,7 @@ def run(case):
             last_dirop = max((i for i, o in enumerate(oplog) if o[1] in ("rename", "remove")), default=len(oplog))
             nontrivial = first_write <= n <= last_dirop
             resolution = cfg["resolution"] if status == "crash" else "n/a"
-            key = f"{cfg['fmt']}|{cfg['prior']}|{opname}#{min(occurrence, 4)}|{kind}|{resolution}"
+            key = f"{cfg['fmt']}|{cfg['prior']}{'+symlink' if cfg.get('symlink') else ''}|{opname}#{min(occurrence, 4)}|{kind}|{resolution}"
             sample = {"cfg": cfg, "oplog": [f"{o[1]}:{o[2].split('/')[-1]}" for o in oplog][:40], "fault_at": n, "op": opname,
                       "kind": kind, "save_status": status, "old_nodes": sorted(s_old), "new_nodes": sorted(s_new)}
             if not fired:
